@@ -989,7 +989,7 @@ def scenario(rng, world):
     loops nested in a light loop while the caller has values pending; a routine defined inside a branch that
     is not taken or a loop body; index variables of caller and callee loops."""
     kind = rng.choice(['shadow', 'shadow', 'shadow', 'unwind', 'unwind', 'nested_def', 'nested_def', 'loop_in_loop',
-                       'arg_alias', 'arg_alias', 'paramless_local', 'paramless_local', 'computed_sources', 'late_macro'])
+                       'arg_alias', 'arg_alias', 'paramless_local', 'paramless_local', 'computed_sources', 'late_macro', 'self_bound'])
     g = rng.choice(['a', 'x', 'n', 'level'])
     items = []
     if kind == 'shadow':
@@ -1058,6 +1058,20 @@ def scenario(rng, world):
         items.append(('repeat in %s as lx %s' % (' and '.join(t for t, _ in srcs), b[0]),
                       '(SRepeat (LIn %s "lx" None) %s)' % (coq_list([c for _, c in srcs]), b[1])))
         items.append(K.pr(K.lit(999)))
+    elif kind == 'self_bound':
+        # the bounds of a range loop are evaluated before the index variable is initialised, even when they read it
+        v = rng.choice(['n', 'k', 'i'])
+        hi = rng.randint(2, 4)
+        items.append(K.assign(v, K.lit(hi)))
+        items.append(K.rep_range(v, K.lit(1), K.var(v), [K.pr(K.var(v))]))
+        items.append(K.pr(K.var(v)))
+        items.append(K.assign(v, K.lit(hi)))
+        items.append(K.rep_range(v, K.expr(*K.e_bin('-', K.e_var(v), K.e_lit(1))), K.expr(*K.e_bin('+', K.e_var(v), K.e_lit(1))), [K.pr(K.var(v))]))
+        items.append(K.define('cnt', [v], [K.rep_range(v, K.lit(0), K.var(v), [K.pr(K.var(v))]), K.ret(K.var(v))]))
+        items.append(K.pr(K.r_call('cnt', [K.lit(2)])))
+        b = K.block([K.reg('hue', K.var(v)), K.pr(K.var(v))])
+        items.append(('repeat %d with %s from 10 to {%s * 10} %s' % (3, v, v, b[0]),
+                      '(SRepeat (LCountWith (RLit (LInt 3)) (WRange %s (RLit (LInt 10)) (RExpr (EBin BMul (EVar %s) (ELit (LInt 10)))))) %s)' % (coq_str(v), coq_str(v), b[1])))
     elif kind == 'late_macro':
         # a macro defined after a routine whose parameter / local has the same name: inside the routine the name is still the parameter
         p1 = rng.choice(['level', 'n', 'amount'])
